@@ -893,6 +893,18 @@ func (ex *Exec) jsonUnmarshal(a []Value, fr *Frame, pos token.Pos) Value {
 	if !ok || p.c == nil {
 		return ex.makeErrorValue("json: Unmarshal(non-pointer)")
 	}
+	// an interface target holding a non-nil pointer is decoded through (encoding/json indirect)
+	for {
+		iv, isI := p.c.val.(IfaceV)
+		if !isI || p.c.elems != nil {
+			break
+		}
+		inner, isP := iv.v.(Ptr)
+		if !isP || inner.c == nil {
+			break
+		}
+		p = inner
+	}
 	if !isInterface(p.c.typ) || p.c.typ.Underlying().(*types.Interface).NumMethods() != 0 {
 		panic(unsupported{"json.Unmarshal into " + typeStr(p.c.typ)})
 	}
